@@ -25,8 +25,9 @@ def isKV : Op → Bool
   | .get | .ex | .set _ _ | .del | .wbk => true
   | _ => false
 
+/-- append/remove calls, plain `GetList` readers running beside them (and as-found write-back goroutines). -/
 def isListMut : Op → Bool
-  | .app _ | .rem _ | .wbk => true
+  | .app _ | .rem _ | .getl | .wbk => true
   | _ => false
 
 /-- A write the reads may be explained by. `retOk = some b`: returned successfully at index `b`. -/
@@ -81,6 +82,7 @@ def holdsFresh (init : Option Val) (ths : List ThObs) (fget : Res) : Bool :=
 def listOf : Option Val → Option (List Nat)
   | none => some []
   | some (.list xs) => some xs
+  | some (.jl xs) => some xs
   | some _ => none
 
 def okApp (ths : List ThObs) (x : Nat) : Bool := ths.any (fun t => t.op == .app x && t.res == some .ok)
@@ -92,7 +94,7 @@ def elems (ths : List ThObs) : List Nat :=
   ths.filterMap (fun t => match t.op with | .app x => some x | .rem x => some x | _ => none)
 
 /-- No list update is lost and no failed update leaves a trace (vacuous unless every call is an
-append/remove and all have returned): an element whose append succeeded and whose removal did not is in
+append/remove/GetList and all have returned): an element whose append succeeded and whose removal did not is in
 the list; one whose removal succeeded and whose append did not is not; nothing is in the list that was
 not there initially or successfully appended; every initial member that was not successfully removed is
 still there.  A call that returned an error has changed nothing. -/
@@ -102,11 +104,14 @@ def holdsList (init : Option Val) (ths : List ThObs) (fget : Res) : Bool :=
     | none => true
     | some l0 =>
       match fget with
-      | .val (.list f) =>
-        (elems ths).all (fun x => (!(okApp ths x && !okRem ths x) || f.contains x) &&
-                                  (!(okRem ths x && !okApp ths x) || !f.contains x)) &&
-        f.all (fun y => l0.contains y || okApp ths y) &&
-        l0.all (fun y => okRem ths y || f.contains y)
+      | .val v =>
+        match listOf (some v) with
+        | some f =>
+          (elems ths).all (fun x => (!(okApp ths x && !okRem ths x) || f.contains x) &&
+                                    (!(okRem ths x && !okApp ths x) || !f.contains x)) &&
+          f.all (fun y => l0.contains y || okApp ths y) &&
+          l0.all (fun y => okRem ths y || f.contains y)
+        | none => false
       | .nf => (elems ths).all (fun x => !(okApp ths x && !okRem ths x)) &&
                l0.all (fun y => okRem ths y)
       | _ => false
